@@ -1,9 +1,56 @@
-(* C11 — no cartridge image or guest program can crash the emulator (whole machine).  WORK IN PROGRESS: the
-   whole-machine theorems are added below as they are proved; the cartridge half is Properties/C11_cart.v. *)
+(* C11 — no cartridge image or guest program can crash the emulator.
+   Crashes are values in the model (Res.Crash for every Go panic: index out of range, nil controller, division by
+   zero, explicit panic; Res.Exit for os.Exit), so "never crashes" is "never returns Crash".
+   The cartridge half is also stated on its own in Properties/C11_cart.v. *)
 From V.lib Require Import Bits Mem Res.
-From V.model Require Import Rtc Cart.
-From V.proofs Require Import CartSafe.
+From V.model Require Import Rtc Cart Cpu System.
+From V.proofs Require Import CartSafe SafeCart SafeBus.
 
-Theorem C11_cart_safe_after_construction : forall img c0, cart_construct img = Ok c0 -> CartSafe c0.
-Proof. exact construct_safe. Qed.
-Print Assumptions C11_cart_safe_after_construction.
+(* ---- bus level: every history of Mapper.Read / Mapper.Write (any 16-bit address, any byte), hardware cycles
+   (PPU with the renderer, OAM DMA, cartridge clock, APU, timer and its interrupt request) and button events, on the
+   machine built from ANY image (any length, any bytes) ---- *)
+Theorem C11_bus_construct_or_safe : forall (img : image) (serial_attached audio_attached : bool),
+  img_bytes img ->
+  (exists w, sys_new img serial_attached audio_attached = Crash w) \/
+  (exists cs0, sys_new img serial_attached audio_attached = Ok cs0 /\
+     forall ops : list bus_op, Forall bus_op_wf ops -> exists s, bus_run (snd cs0) ops = Ok s).
+Proof. exact bus_level_safe. Qed.
+Print Assumptions C11_bus_construct_or_safe.
+
+(* the invariant behind it, for composition: established by construction, kept by every operation, and it makes
+   every bus read return a byte *)
+Theorem C11_bus_inv_construct : forall img ser aud cs,
+  img_bytes img -> sys_new img ser aud = Ok cs -> fst cs = cpu_init /\ bus_inv (snd cs).
+Proof. exact sys_new_inv. Qed.
+Print Assumptions C11_bus_inv_construct.
+
+Theorem C11_bus_inv_step : forall s o, bus_inv s -> bus_op_wf o -> exists s', bus_step s o = Ok s' /\ bus_inv s'.
+Proof. exact bus_step_safe. Qed.
+Print Assumptions C11_bus_inv_step.
+
+Theorem C11_bus_reads_bytes : forall s a, bus_inv s -> a < 65536 -> exists s' v, sys_read s a = Ok (s', v) /\ v < 256.
+Proof. exact bus_reads_bytes. Qed.
+Print Assumptions C11_bus_reads_bytes.
+
+(* the generated address decoders are total on 16-bit addresses and index the two RAM arrays within the sizes
+   declared in mapper.go (a shrunk array or a mis-routed case breaks this obligation) *)
+Theorem C11_decoder_total : forall a, a < 65536 ->
+  handler_okb true (read_handler a) a = true /\ handler_okb false (write_handler a) a = true.
+Proof. exact decoder_ok. Qed.
+Print Assumptions C11_decoder_total.
+
+(* Non-vacuity: an image that constructs, and a history that exercises every kind of operation *)
+Example C11_example_image : image :=
+  mkImage 32768 (fun a => if a =? 327 then 19 else if a =? 329 then 3 else 0).
+
+Example C11_bus_example :
+  img_bytes C11_example_image /\
+  exists cs0, sys_new C11_example_image true false = Ok cs0 /\
+  exists s, bus_run (snd cs0) [BWrite 0xFF40 0x91; BHw; BRead 0xFE00; BWrite 0xFE00 7; BWrite 0xFF46 0xC0; BHw; BHw;
+                               BWrite 0x2000 0x7F; BRead 0x4000; BWrite 0xFF1E 0x80; BRead 0xFF30; BButton 4 true;
+                               BWrite 0xFFFF 0xFF; BRead 0xFFFF; BHw] = Ok s.
+Proof.
+  split.
+  - intros a. unfold C11_example_image; cbn. destruct (a =? 327); [lia|]. destruct (a =? 329); lia.
+  - eexists. split; [vm_compute; reflexivity|]. eexists. vm_compute. reflexivity.
+Qed.
